@@ -2,6 +2,7 @@ import WhVerif.Lemmas.C16
 import WhVerif.Lemmas.C16UF
 import WhVerif.Model.C16Select
 import WhVerif.Model.C16Table
+import WhVerif.Lemmas.C16Largest
 import WhVerif.Props.C07
 /-!
 # C16 — results depend on the input only (the part that is logic)
@@ -211,5 +212,97 @@ theorem shared_key_last_writer_wins :
       = writeAll [(haplotagKey false 2 7, "H2"), (haplotagKey false 1 7, "H1")] (fun _ => none) := by
   refine ⟨by decide, ?_⟩
   exact per_sample_writes_order_independent _ _ (List.Perm.swap _ _ _) (by decide) _
+
+/-! ## Round 10: `split --only-largest-block` — ties for the largest phase set -/
+
+/-- **largest_block_by_first_occurrence**: `Counter.most_common(1)` on the counter filled row by row from the haplotag list
+(`split.py:select_reads_in_largest_phased_blocks`) is `max` over ONE particular enumeration of the phase set names — the
+order of their first occurrence in the list `l`, which is the key order of the dict — with the number of rows as the key.
+No enumeration of a set enters: the choice is a function of the list alone, also when several phase sets tie. -/
+theorem largest_block_by_first_occurrence (l : List Nat) :
+    mostCommon1 l = (maxOverEnum (firstOcc l) l).map (fun b => (b, l.count b)) := by
+  unfold mostCommon1 maxOverEnum
+  rw [counter_eq, firstMaxBy_map]
+
+example : mostCommon1 [5, 3, 3, 5, 9] = some (5, 2) ∧ maxOverEnum (firstOcc [5, 3, 3, 5, 9]) [5, 3, 3, 5, 9] = some 5 := by
+  decide
+
+/-- **largest_block_spec**: what the unchanged code selects, for every list of (tagged) phase set names: a phase set `b` of the
+list together with its number of rows `n`; no phase set has more rows; and every phase set whose first row comes BEFORE the
+first row of `b` has strictly fewer rows — among the phase sets that tie for the largest size the first one in the file wins.
+These conditions determine `b` (`largest_block_unique`). -/
+theorem largest_block_spec (l : List Nat) (b n : Nat) (h : mostCommon1 l = some (b, n)) :
+    n = l.count b ∧ b ∈ l ∧ (∀ b', l.count b' ≤ n) ∧
+    ∃ pre post, firstOcc l = pre ++ b :: post ∧ ∀ b' ∈ pre, l.count b' < n := by
+  rw [largest_block_by_first_occurrence] at h
+  unfold maxOverEnum at h
+  cases hm : firstMaxBy (fun b => l.count b) (firstOcc l) with
+  | none => rw [hm] at h; simp at h
+  | some b0 =>
+    rw [hm] at h
+    simp only [Option.map_some, Option.some.injEq, Prod.mk.injEq] at h
+    obtain ⟨hb, hn⟩ := h
+    subst hb
+    obtain ⟨hmem, hmax⟩ := firstMaxBy_max _ _ _ hm
+    obtain ⟨pre, post, he, hpre, _⟩ := firstMaxBy_spec _ _ _ hm
+    refine ⟨hn.symm, (mem_firstOcc l b0).1 hmem, ?_, pre, post, he, ?_⟩
+    · intro b'
+      by_cases hb' : b' ∈ l
+      · have := hmax b' ((mem_firstOcc l b').2 hb'); omega
+      · have : l.count b' = 0 := List.count_eq_zero.2 hb'
+        omega
+    · intro b' hb'
+      have := hpre b' hb'; omega
+
+example : mostCommon1 [7, 4, 4, 7] = some (7, 2) := by decide
+
+/-- **max_over_enumeration_independent_without_ties**: if one phase set has strictly more rows than every other one, `max`
+over ANY enumeration of the names returns it: two enumerations of the same names (`e₂` a permutation of `e₁`) agree.  So a run
+that kept the names in a set would differ from the code only on inputs with a tie for the largest size. -/
+theorem max_over_enumeration_independent_without_ties (e₁ e₂ l : List Nat) (hp : e₁.Perm e₂) (b : Nat) (hb : b ∈ e₁)
+    (hdom : ∀ x ∈ e₁, x ≠ b → l.count x < l.count b) :
+    maxOverEnum e₁ l = some b ∧ maxOverEnum e₂ l = some b := by
+  refine ⟨firstMaxBy_of_dominant _ _ _ hb hdom, firstMaxBy_of_dominant _ _ _ (hp.mem_iff.1 hb) ?_⟩
+  intro x hx hne
+  exact hdom x (hp.mem_iff.2 hx) hne
+
+example : maxOverEnum [3, 5] [5, 3, 5] = some 5 ∧ maxOverEnum [5, 3] [5, 3, 5] = some 5 :=
+  max_over_enumeration_independent_without_ties [3, 5] [5, 3] [5, 3, 5] (List.Perm.swap _ _ _) 5 (by decide) (by decide)
+
+/-- **max_over_enumeration_depends_on_order_at_ties** (witness; seed C16-h): with two phase sets of two rows each, `max` over
+the two enumerations of the set {3, 5} returns different phase sets — whereas the code (`mostCommon1`) has no enumeration to
+depend on and returns the phase set whose first row comes first. -/
+theorem max_over_enumeration_depends_on_order_at_ties :
+    maxOverEnum [3, 5] [5, 3, 3, 5] ≠ maxOverEnum [5, 3] [5, 3, 3, 5] ∧ mostCommon1 [5, 3, 3, 5] = some (5, 2) := by
+  decide
+
+/-- **largest_block_unique**: the conditions of `largest_block_spec` leave no choice — any phase set that satisfies them is the
+selected one; the selection is a function of the list. -/
+theorem largest_block_unique (l : List Nat) (b n c : Nat) (h : mostCommon1 l = some (b, n))
+    (hmax : ∀ b', l.count b' ≤ l.count c)
+    (hfirst : ∃ pre post, firstOcc l = pre ++ c :: post ∧ ∀ b' ∈ pre, l.count b' < l.count c) : c = b := by
+  obtain ⟨hn, _, hbmax, pre, post, he, hpre⟩ := largest_block_spec l b n h
+  obtain ⟨pre', post', he', hpre'⟩ := hfirst
+  have hcb : l.count c = l.count b := by
+    have h1 := hbmax c; have h2 := hmax b; omega
+  -- both decompositions of `firstOcc l`: whichever of b, c comes first would have to be strictly smaller than the other
+  have hsplit := List.append_eq_append_iff.1 (he.symm.trans he')
+  rcases hsplit with ⟨a', h1, h2⟩ | ⟨c', h1, h2⟩
+  · cases a' with
+    | nil => simp at h2; exact h2.1.symm
+    | cons x xs =>
+      simp only [List.cons_append, List.cons.injEq] at h2
+      have hbpre : b ∈ pre' := by rw [h1]; simp [h2.1]
+      have := hpre' b hbpre; omega
+  · cases c' with
+    | nil => simp at h2; exact h2.1
+    | cons x xs =>
+      simp only [List.cons_append, List.cons.injEq] at h2
+      have hcpre : c ∈ pre := by rw [h1]; simp [h2.1]
+      have := hpre c hcpre; omega
+
+example : (3 : Nat) = 3 :=
+  largest_block_unique [3, 8, 8, 3] 3 2 3 (by decide) (by intro b'; simp [List.count_cons]; split <;> split <;> omega)
+    ⟨[], [8], by decide, by simp⟩
 
 end WhVerif.Props.C16
